@@ -34,6 +34,11 @@ Record c16case := mkCase {
   (* then phases: requests (configuration changes, restarts, branch requests) followed by reads of
      named versions; every phase lists the same reads, and no phase but the first writes *)
   c_phases : list (list obsop * list ((vref * rreq) * rres));
+  (* scheduled section (only in the case named "scheduled"): after pairs of overlapping requests
+     on one body id (one held at a yield point of storeAndUpdate while the other runs), the answers
+     of the head (memory path) and of its committed copy (store path); not compared with the
+     sequential model *)
+  c_conc : list (rreq * list rres);
 }.
 
 Definition rx_of (tbl : list (bytes * option (list (bytes * bool)))) (pat : bytes) : option (bytes -> bool) :=
@@ -167,7 +172,8 @@ Definition model_ok_gen (V : variant) (c : c16case) : bool :=
    8 fieldtimes differ; 9 the JSON schema in force differs.  8 and 9 are reported only when
    nothing else fails (they are the two defects repaired by C16-7/8-fix.diff); 10 a version read in
    two phases answers differently in a history with a configuration hazard (repair C16-9); 11 the
-   read paths differ in a history where a restart loses the head of master (datastore defect) *)
+   read paths differ in a history where a restart loses the head of master (datastore defect);
+   12 after two overlapping requests on one body id the head's memory and its store differ *)
 Definition req_class (r : rreq) : nat :=
   match r with
   | RKeys | RKeyRange _ _ | RHeadKey _ => 1
@@ -207,6 +213,19 @@ Definition merge_rules_ok (before : option obj) (after : obj) (body0 : list (byt
       (if replace then true
        else forallb (fun p => if mentions body (fst p) || stamp_of_mentioned body (fst p) then true
                               else opt_eqb json_eqb (oget (fst p) after) (Some (snd p))) b)
+      &&
+      (* a conditional field that is already set keeps its value, and its stamps unless the request sets them *)
+      forallb (fun p =>
+        let f := fst p in
+        if negb replace && smem f conds && negb (is_null (snd p)) && negb (is_meta f) then
+          match oget f b with
+          | Some ov =>
+              opt_eqb json_eqb (oget f after) (Some ov)
+              && (mentions body (fuser f) || opt_eqb json_eqb (oget (fuser f) after) (oget (fuser f) b))
+              && (mentions body (ftime f) || opt_eqb json_eqb (oget (ftime f) after) (oget (ftime f) b))
+          | None => true
+          end
+        else true) body
       &&
       (* stamps move exactly when the value does *)
       forallb (fun p =>
@@ -323,7 +342,7 @@ Definition spec_class (c : c16case) : nat :=
       | None =>
         match find (fun rr => negb (same_answers rr)) (c_reads c) with
         | Some rr => req_class (fst rr)
-        | None => 0%nat
+        | None => if forallb (fun rr => all_same (snd rr)) (c_conc c) then 0%nat else 12%nat
         end
       end
     end.
